@@ -8,21 +8,21 @@ namespace HLV
 open Prog
 
 /-! ### marks (API boundaries made visible in traces) -/
-def mkBeginBlocking : Nat := 1   -- a blocking acquiring API call starts
-def mkBeginTry      : Nat := 2   -- a try_* API call starts
-def mkBeginNonAcq   : Nat := 3   -- a non-acquiring operation starts (Debug, is_poisoned, …)
-def mkEndCall       : Nat := 4   -- the call returned or unwound
-def mkKeyBack       : Nat := 5   -- the API has given the thread its key back (or left it usable)
-def mkBody          : Nat := 6   -- the scoped closure was invoked
-def mkOutOk         : Nat := 10
-def mkOutWouldBlock : Nat := 11
-def mkOutPoisoned   : Nat := 12  -- acquired, result was `Err(PoisonError)` carrying the guard/data
-def mkOutPanic      : Nat := 13
-def mkOutNoKey      : Nat := 14  -- statement skipped: the program owns no key to pass
-def mkGotKey        : Nat := 20  -- `ThreadKey::get()` inside a hold returned a key
-def mkNoKeyInside   : Nat := 21
-def mkSeenPoisoned  : Nat := 22  -- `is_poisoned()` inside a hold
-def mkSeenClean     : Nat := 23
+abbrev mkBeginBlocking : Nat := 1   -- a blocking acquiring API call starts
+abbrev mkBeginTry : Nat := 2   -- a try_* API call starts
+abbrev mkBeginNonAcq : Nat := 3   -- a non-acquiring operation starts (Debug, is_poisoned, …)
+abbrev mkEndCall : Nat := 4   -- the call returned or unwound
+abbrev mkKeyBack : Nat := 5   -- the API has given the thread its key back (or left it usable)
+abbrev mkBody : Nat := 6   -- the scoped closure was invoked
+abbrev mkOutOk : Nat := 10
+abbrev mkOutWouldBlock : Nat := 11
+abbrev mkOutPoisoned : Nat := 12  -- acquired, result was `Err(PoisonError)` carrying the guard/data
+abbrev mkOutPanic : Nat := 13
+abbrev mkOutNoKey : Nat := 14  -- statement skipped: the program owns no key to pass
+abbrev mkGotKey : Nat := 20  -- `ThreadKey::get()` inside a hold returned a key
+abbrev mkNoKeyInside : Nat := 21
+abbrev mkSeenPoisoned : Nat := 22  -- `is_poisoned()` inside a hold
+abbrev mkSeenClean : Nat := 23
 
 inductive Api | lock | tryLock | scoped | scopedTry
   deriving DecidableEq, Repr, Inhabited
@@ -84,23 +84,22 @@ def guardDrop (m : Mode) : List GuardItem → Bool → Prog Unit Bool
       | _ => guardDrop m gs panicking
 
 /-! ### Debug -/
+
+/-- `Debug` of a leaf: `try_lock_no_key` / `try_read_no_key`, the value is formatted, the
+`MutexRef` / `RwLockReadRef` is dropped; `<locked>` if the try fails. -/
+def debugLeaf (x : LockId) (m : Mode) : Prog Unit Unit :=
+  op (.acq m false x) fun r =>
+    match r with
+    | .ok => op (.access x none) fun _ => op (.rel m x) fun r' =>
+               match r' with | .panic => unwind () | _ => done ()
+    | .no => done ()
+    | .panic => unwind ()
+
 mutual
 /-- `impl Debug` of every lock and collection type. -/
 def debugFmt : Shape → Prog Unit Unit
-  | .mutex x =>           -- `try_lock_no_key`, value formatted, `MutexRef` dropped
-    op (.acq .excl false x) fun r =>
-      match r with
-      | .ok => op (.access x none) fun _ => op (.rel .excl x) fun r' =>
-                 match r' with | .panic => unwind () | _ => done ()
-      | .no => done ()
-      | .panic => unwind ()
-  | .rwlock x =>          -- `try_read_no_key`
-    op (.acq .shared false x) fun r =>
-      match r with
-      | .ok => op (.access x none) fun _ => op (.rel .shared x) fun r' =>
-                 match r' with | .panic => unwind () | _ => done ()
-      | .no => done ()
-      | .panic => unwind ()
+  | .mutex x => debugLeaf x .excl
+  | .rwlock x => debugLeaf x .shared
   | .seq ss => debugFmtL ss
   | .poisonable _ s => debugFmt s          -- derived: `inner`, then the flag
   | .boxed _ => done ()                    -- prints the raw pointer field only
@@ -198,42 +197,50 @@ def guardSession (C : Ctx) (S : Shape) (ses : Session) (u : UserSt) : Prog Unit 
 /-- A session through the scoped APIs. `utils::scoped_*`, `Mutex::scoped_*`, `RwLock::scoped_*`
 drop the key before the final unlock; `Poisonable::scoped_*` unlocks first and poisons when
 the closure unwinds. -/
-def scopedSession (C : Ctx) (S : Shape) (ses : Session) (u : UserSt) : Prog Unit (Nat × UserSt) :=
+def scopedUnwound (ses : Session) (u' : UserSt) : Prog Unit (Nat × UserSt) :=
+  dropKeyIf ses.key (op (.mark mkEndCall) fun _ => op (.mark mkKeyBack) fun _ => done (mkOutPanic, u'))
+
+/-- the part of a scoped session after the acquisition succeeded -/
+def scopedHeld (C : Ctx) (S : Shape) (ses : Session) (u' : UserSt) : Prog Unit (Nat × UserSt) :=
   let L := toRaw C.W S
-  let u' : UserSt := match ses.key with | .owned => { u with keys := u.keys - 1 } | .lent => u
-  let unwound : Prog Unit (Nat × UserSt) :=
-    dropKeyIf ses.key (op (.mark mkEndCall) fun _ => op (.mark mkKeyBack) fun _ => done (mkOutPanic, u'))
-  let held : Prog Unit (Nat × UserSt) :=
-    -- data_mut()/data_ref(): poison flags are read
-    Prog.bind (readPoison (poisonIds S) false) fun poisoned =>
-    op (.mark mkBody) fun _ =>
-    let out := if poisoned then mkOutPoisoned else mkOutOk
-    let closure : Prog Unit Unit :=
-      Prog.bind (bodySteps C S ses.body) fun _ =>
-        match ses.exit with | .panic => unwind () | _ => done ()
-    let onUnwind : Prog Unit Unit :=
-      match isPoisonableTop S with
-      | some p => op (.poisonSet p) fun _ => L.rel ses.mode
-      | none => L.rel ses.mode
-    bindX (handle () closure (fun _ => onUnwind)) (fun _ => unwound) fun _ =>
-      match isPoisonableTop S with
-      | some _ =>
-        bindX (L.rel ses.mode) (fun _ => unwound) fun _ =>
-          dropKeyIf ses.key (op (.mark mkEndCall) fun _ => op (.mark mkKeyBack) fun _ => done (out, u'))
-      | none =>
-        dropKeyIf ses.key
-          (bindX (L.rel ses.mode)
-            (fun _ => op (.mark mkEndCall) fun _ => op (.mark mkKeyBack) fun _ => done (mkOutPanic, u'))
-            fun _ => op (.mark mkEndCall) fun _ => op (.mark mkKeyBack) fun _ => done (out, u'))
+  -- data_mut()/data_ref(): poison flags are read
+  Prog.bind (readPoison (poisonIds S) false) fun poisoned =>
+  op (.mark mkBody) fun _ =>
+  let out := if poisoned then mkOutPoisoned else mkOutOk
+  let closure : Prog Unit Unit :=
+    Prog.bind (bodySteps C S ses.body) fun _ =>
+      match ses.exit with | .panic => unwind () | _ => done ()
+  let onUnwind : Prog Unit Unit :=
+    match isPoisonableTop S with
+    | some p => op (.poisonSet p) fun _ => L.rel ses.mode
+    | none => L.rel ses.mode
+  bindX (handle () closure (fun _ => onUnwind)) (fun _ => scopedUnwound ses u') fun _ =>
+    match isPoisonableTop S with
+    | some _ =>
+      bindX (L.rel ses.mode) (fun _ => scopedUnwound ses u') fun _ =>
+        dropKeyIf ses.key (op (.mark mkEndCall) fun _ => op (.mark mkKeyBack) fun _ => done (out, u'))
+    | none =>
+      dropKeyIf ses.key
+        (bindX (L.rel ses.mode)
+          (fun _ => op (.mark mkEndCall) fun _ => op (.mark mkKeyBack) fun _ => done (mkOutPanic, u'))
+          fun _ => op (.mark mkEndCall) fun _ => op (.mark mkKeyBack) fun _ => done (out, u'))
+
+def scopedSessionWith (C : Ctx) (S : Shape) (ses : Session) (u u' : UserSt) :
+    Prog Unit (Nat × UserSt) :=
+  let L := toRaw C.W S
   match ses.api with
   | .scopedTry =>
     op (.mark mkBeginTry) fun _ =>
-      bindX (L.try_ ses.mode) (fun _ => unwound) fun b =>
-        if b then held
+      bindX (L.try_ ses.mode) (fun _ => scopedUnwound ses u') fun b =>
+        if b then scopedHeld C S ses u'
         else op (.mark mkEndCall) fun _ => op (.mark mkKeyBack) fun _ => done (mkOutWouldBlock, u)
   | _ =>
     op (.mark mkBeginBlocking) fun _ =>
-      bindX (L.acq ses.mode) (fun _ => unwound) fun _ => held
+      bindX (L.acq ses.mode) (fun _ => scopedUnwound ses u') fun _ => scopedHeld C S ses u'
+
+def scopedSession (C : Ctx) (S : Shape) (ses : Session) (u : UserSt) : Prog Unit (Nat × UserSt) :=
+  scopedSessionWith C S ses u
+    (match ses.key with | .owned => { u with keys := u.keys - 1 } | .lent => u)
 
 def session (C : Ctx) (ses : Session) (u : UserSt) : Prog Unit (Nat × UserSt) :=
   let S := C.shape ses.coll
